@@ -2,6 +2,7 @@ package git
 
 import (
 	"regexp"
+	"regexp/syntax"
 	"strings"
 )
 
@@ -124,15 +125,19 @@ func (f prefixFilter) Filter(refname string) bool {
 // whose names match the specified `prefix`, which must match the
 // whole reference name.
 func RegexpFilter(pattern string) (ReferenceFilter, error) {
-	// Check the pattern on its own first, so that an unbalanced
+	// Parse the pattern on its own first, so that an unbalanced
 	// pattern cannot pair up with the group that is added below:
-	if _, err := regexp.Compile(pattern); err != nil {
+	parsed, err := syntax.Parse(pattern, syntax.Perl)
+	if err != nil {
 		return nil, err
 	}
 
 	// The group makes the anchors apply to the whole pattern, even if
-	// it contains a top-level alternation:
-	re, err := regexp.Compile("^(?:" + pattern + ")$")
+	// it contains a top-level alternation. Use the parsed pattern
+	// written out again rather than the pattern as typed, so that a
+	// `\Q` quotation that runs to the end of the pattern cannot
+	// swallow the end of the group:
+	re, err := regexp.Compile("^(?:" + parsed.String() + ")$")
 	if err != nil {
 		return nil, err
 	}
